@@ -82,3 +82,22 @@ void unmany() {
   hold = 0;
 }
 int probe(int i) { mixed v = get(i); if (arrayp(v)) return sizeof(v); if (mapp(v)) return sizeof(v); return -1; }
+
+// evaluations that only use g[i] and complete: afterwards every count is what it was
+mixed nopv(mixed *a...) { return sizeof(a); }
+mixed ident(mixed x) { return x; }
+void use(int i, int kind) {
+  mixed v = get(i), t, x;
+  mapping m;
+  switch (kind) {
+    case 1: t = ({ v }); nopv(t...); break;                         // spread a one-element array that a variable holds too
+    case 2: t = ({ v, v }); nopv(t...); nopv(({ v })...); break;    // two elements; a temporary
+    case 3: foreach (x in ({ v, ({ v }) })) t = x; t = 0; break;
+    case 4: t = sprintf("%O %d", v, sizeof(({ v }) + ({ v }) - ({ v }))); break;
+    case 5: m = ([ v : v, "k" : ({ v }) ]); map_delete(m, v); t = m["k"]; m = 0; break;
+    case 6: t = map_array(({ v, v }), (: ident :)); t = filter_array(t, (: arrayp($1) || mapp($1) || functionp($1) :)); t = sort_array(({ ({ v }), ({ v }) }), (: 0 :)); break;
+    case 7: t = ({ v }); t[0..0] = ({ v, v }); t = t[1..]; t += ({ v }); t = t[<1..]; break;
+    case 8: t = evaluate((: ident :), v); t = evaluate((: $1 :), ({ v })...); t = call_other(this_object(), "ident", v); break;
+    case 9: t = ({ ({ v }) }); nopv(t[0]...); x = t[0]; nopv(x...); nopv(v, x..., v); break;
+  }
+}
